@@ -508,8 +508,12 @@ func (s *Store) snapshotActive() map[string]secretState {
 	defer s.active.Unlock()
 	m := make(map[string]secretState)
 	for name, cs := range s.active.m {
+		// A secret that has an outstanding handle is never removed (see
+		// applyUpdates), so it must keep being polled even if it would
+		// otherwise have expired; otherwise the handle goes stale forever.
+		_, hasHandle := s.active.f[name]
 		m[name] = secretState{
-			expired: s.hasExpired(cs),
+			expired: !hasHandle && s.hasExpired(cs),
 			version: cs.Secret.Version,
 		}
 	}
